@@ -79,6 +79,11 @@ CATALOGUE = [
     ("no_irf_kernel_last_time_point_skipped", "C04", "builtin/megacomplexes/decay/util.py", "        for n_t in range(times.size):", "        for n_t in range(times.size - 1):", 1),
     ("slice_infinite_lower_bound_starts_at_one", "C08", "optimization/data_provider.py", "minimum = 0 if np.isinf(interval_min)", "minimum = 1 if np.isinf(interval_min)", 1),
     ("align_backward_excludes_equal", "C09", "optimization/data_provider.py", "            target_axis = target_axis[diff <= 0]\n            diff = diff[diff <= 0]", "            target_axis = target_axis[diff < 0]\n            diff = diff[diff < 0]", 1),
+    # ---- bugs that only bite beyond the shapes of the symbolic (S-level) runs: all-sizes contracts + native sweeps
+    ("irf_kernel_only_first_three_gaussians", "C05", "builtin/megacomplexes/decay/decay_matrix_gaussian_irf.py", "    for n_i in nb.prange(centers.size):", "    for n_i in nb.prange(min(centers.size, 3)):", 1),
+    ("align_only_short_target_axes", "C09", "optimization/data_provider.py", "        if len(diff) > 0 and diff.min() <= tolerance:", "        if 0 < len(diff) < 50 and diff.min() <= tolerance:", 1),
+    ("slice_wrong_for_long_axes", "C08", "optimization/data_provider.py", "        minimum = 0 if np.isinf(interval_min) else np.abs(axis - interval_min).argmin()", "        minimum = 0 if np.isinf(interval_min) or axis.size > 20 else np.abs(axis - interval_min).argmin()", 1),
+    ("vp_zeroing_stops_at_eight_columns", "C01", "optimization/variable_projection.py", "    for i in range(matrix.shape[1]):", "    for i in range(min(matrix.shape[1], 8)):", 1),
     ("harmless_vp_rename_local", "C01", "optimization/variable_projection.py", "    for i in range(matrix.shape[1]):\n        temp[i] = 0", "    for col in range(matrix.shape[1]):\n        temp[col] = 0", 0),
     ("harmless_applies_min_max", "C08", "model/interval_item.py", "            if lower > upper:\n                lower, upper = upper, lower\n", "            lower, upper = min(lower, upper), max(lower, upper)\n", 0),
     ("harmless_enumerate_to_range", "C02", "optimization/matrix_provider.py", "        for i, index in enumerate(global_axis):\n            matrix = matrices[i]\n            clp_labels = matrix.clp_labels\n            removed_clp_labels", "        for i in range(len(global_axis)):\n            index = global_axis[i]\n            matrix = matrices[i]\n            clp_labels = matrix.clp_labels\n            removed_clp_labels", 0),
@@ -112,7 +117,7 @@ def main():
         rows.append((name, prop, expect, r.returncode, "; ".join(viol[:2]), round(time.time() - t, 1)))
         print(name, prop, "expected", expect, "got", r.returncode, viol[:1], flush=True)
     os.makedirs(os.path.join(VERIF, "selftest"), exist_ok=True)
-    with open(os.path.join(VERIF, "selftest", "RESULTS.md"), "w") as f:
+    with open(os.path.join(VERIF, "selftest", "RESULTS.md" if not only else "RESULTS_partial.md"), "w") as f:
         f.write("# Mutation self-test (tools/selftest.py, quick tier)\n\n| mutant | property | expected exit | exit | first failing obligations | s |\n|---|---|---|---|---|---|\n")
         for row in rows:
             f.write("| " + " | ".join(str(x) for x in row) + " |\n")
